@@ -46,7 +46,7 @@ EXC_KINDS: List[str] = ['value', 'key', 'type', 'assert', 'runtime', 'custom', '
 def logical_call(ch: Choices, tok: str, allow_fail: bool = True, allow_notification: bool = True,
                  positional_only: bool = False, zero_ok: bool = False, extra_codes: Tuple[int, ...] = (),
                  extra_messages: Tuple[str, ...] = ()) -> LogicalCall:
-    weights = [4, 2, 1, 2, 3 if allow_fail else 0, 2 if allow_fail else 0, 1]
+    weights = [4, 2, 1, 2, 3 if allow_fail else 0, 2 if allow_fail else 0, 1, 2]
     kind = ch.weighted(weights, 'call.kind')
     named = (not positional_only) and ch.flag(1, 3, 'call.named')
     notification = allow_notification and ch.flag(1, 4, 'call.notification')
@@ -74,8 +74,14 @@ def logical_call(ch: Choices, tok: str, allow_fail: bool = True, allow_notificat
                 argmap.append(('data', json_value(ch, 2, 'err.data')))
     elif kind == 5:
         method, argmap = 'fail_exc', [('tok', tok), ('kind', ch.choice(EXC_KINDS, 'exc.kind'))]
-    else:
+    elif kind == 6:
         method, argmap = 'slow', [('tok', tok)]
+    else:
+        method = ch.choice(['op_ab', 'op_ba'], 'call.op')
+        first, second = ('a', 'b') if method == 'op_ab' else ('b', 'a')
+        argmap = [('tok', tok), (first, ch.choice([1, 2, 'x', None], 'arg.first'))]
+        if ch.flag(2, 3, 'call.second'):
+            argmap.append((second, ch.choice([5, 7, 'y'], 'arg.second')))
     if named:
         return LogicalCall(method, (), dict(argmap), notification, tok)
     return LogicalCall(method, tuple(v for _, v in argmap), {}, notification, tok)
